@@ -51,5 +51,6 @@ LEVEL_TEXT = (
     "sent or the marker first; nothing precedes it), and updates_only_converges_partial / _pending_partial / _exact_partial (an "
     "updates_only subscriber followed by the C04Gate invariant of its snapshot-taking shadow: on every allowed matched key its view "
     "agrees with the cache, or holds nothing there while the cache holds what it held at registration; nothing else in the view). "
-    "Partial: the event form for keys rewritten to their registration-time value, and requests whose paths CompletePath rejects "
-    "(accepted under updates_only since no walk runs), are not covered (updates_only_converges is the full statement).")
+    "The two cases these _partial theorems leave out - the event form for keys rewritten to their registration-time value, and requests "
+    "whose paths CompletePath rejects (accepted under updates_only since no walk runs) - are closed in Props/C04UpdatesOnly.lean "
+    "(updates_only_converges_full proves the full statement updates_only_converges).")
